@@ -1141,6 +1141,31 @@ func ruleC09(c *Ctx) {
 			}},
 			atom("it is the last data replica", "+len($0.replicas) -1 ==0"))
 	}
+	// the registration that is dropped with a replica is the one whose address maps to it: the
+	// registry is keyed by the bare IP, the member list by tcp://<ip>:9502
+	if fn := c.P.Fn(fCtl + "RemoveReplicaNoLock"); fn != nil {
+		R := NewRenderer(fn)
+		n := 0
+		for _, m := range []string{"RegisteredReplicas", "RegisteredQuorumReplicas"} {
+			for _, d := range CallsTo(fn, "builtin:delete") {
+				args := d.(*ssa.Call).Call.Args
+				if len(args) != 2 || R.V(args[0]) != "$0."+m {
+					continue
+				}
+				n++
+				k := R.V(args[1])
+				key := FnName(fn) + " | registration dropped is the removed replica's | " + m
+				if k != "key($0."+m+")" {
+					c.Bad(rule, key, c.P.InstrPos(d), "the registry entry deleted is "+k+", not an entry found by comparing tcp://<key>:9502 with the removed address (a key computed from the address must undo exactly that mapping; strings.TrimRight / Trim take cut-SETS, not suffixes)", nil)
+					continue
+				}
+				c.Guard(rule, fn, []ssa.Instruction{d}, "delete from "+m, nil, atom("entry belongs to the removed address", eqAtom("$1", `(("tcp://" + key($0.`+m+`)) + ":9502")`)))
+			}
+		}
+		if n < 2 {
+			c.Bad(rule, FnName(fn)+" | registration dropped with the replica", "", "RemoveReplicaNoLock must delete the removed replica's entry from RegisteredReplicas and RegisteredQuorumReplicas", nil)
+		}
+	}
 	if fn := c.Anchor(rule, fCtl+"rmReplicaFromRegisteredReplicas"); fn != nil {
 		a, b := storesOfConst(fn, "Controller", "StartSignalled", "false"), storesOfConst(fn, "Controller", "MaxRevReplica", `""`)
 		if len(a) == 1 && len(b) == 1 {
